@@ -59,9 +59,12 @@ SetupStep(k) ==
 \* P.other is substituted -- a registration man-in-the-middle).
 AdvOf(P) == IF "adv" \in DOMAIN P THEN P.adv ELSE "none"
 GbgOf(field, cls) == CHOOSE g \in garbage : g[2] = field /\ g[3] = cls
+Early(pw) == IF TooLong(pw) THEN BOOLEAN ELSE {FALSE}
 RegStep(i, sub) ==
     LET P == RegPlan[i] IN
-    CASE sub = 0 -> CRegStart(i, P.pw1, 100 + 2 * i)
+    IF sub # 0 /\ regs[i].st = "refused" THEN UNCHANGED vars      \* refused at start: nothing follows
+    ELSE
+    CASE sub = 0 -> \E early \in Early(P.pw1) : CRegStart(i, P.pw1, 100 + 2 * i, early)
       \* persistence points inside a registration: the client's registration state, the server setup
       [] sub = 1 -> \/ UNCHANGED vars
                     \/ /\ Reloads
@@ -126,11 +129,13 @@ Fins == {cl[c].fin : c \in {k \in CliIds : CliOk(k)}}
 \* the user's registered public key / the server key, for explicit spellings of the defaults
 UserCpk == IF NR >= 1 /\ RegOk(1) THEN regs[1].cpk ELSE NoneV
 
-FreeCLogStart == \E c \in CliIds : CLogStart(c, CliPw[c][1], 200 + c)
+FreeCLogStart == \E c \in CliIds, early \in BOOLEAN :
+                     (early => TooLong(CliPw[c][1])) /\ CLogStart(c, CliPw[c][1], 200 + c, early)
+HasReq(k) == cl[k].st \notin {"none", "refused"}
 
 FreeSLogStart ==
     /\ NextSrv # 0
-    /\ \E s \in SrvSetups, u \in SrvRecs, c \in {k \in CliIds : cl[k].st # "none"},
+    /\ \E s \in SrvSetups, u \in SrvRecs, c \in {k \in CliIds : HasReq(k)},
           cid \in SrvCids, ctx \in SrvCtxs, idu \in SrvIdus, ids \in SrvIdss,
           xf \in (IF ExtFail THEN BOOLEAN ELSE {FALSE}) :
          /\ setups[s].st = "live"
